@@ -1,10 +1,13 @@
 #!/bin/sh
-# Offline set-up after a fresh restore: warms the two harness crates' target dirs
-# (Kani GOTO codegen of /repo + harnesses; native replay binary in dev and release).
+# Offline set-up after a fresh restore: builds the shadow Kani bundle (lib/kani_home.sh) and warms
+# the two harness crates' target dirs (Kani GOTO codegen of /repo + harnesses; native replay
+# binary in dev and release).
 set -e
 cd "$(dirname "$0")"
 export CARGO_NET_OFFLINE=true
 mkdir -p .target evidence
+lib/kani_home.sh "$(pwd)"
+export KANI_HOME="$(pwd)/.target/kani-home"
 cp /repo/Cargo.lock kani/Cargo.lock
 cp /repo/Cargo.lock replay/Cargo.lock
 (cd kani && cargo kani --only-codegen --target-dir ../.target/kani-base --harness c04_action::c04_action_tuple --exact -Z stubbing >/dev/null 2>../.target/setup-kani.log) || { tail -30 .target/setup-kani.log; exit 1; }
